@@ -48,6 +48,6 @@ func init() {
 		Assumptions: []string{"sync.Pool hands a buffer to one goroutine at a time (its documented contract)", "receiver distinct from the shared operands", archNote},
 		LevelText:   "Not an enumeration of schedules: for every operation of the statement the executor decides, on every symbolic path, that all stores go to the receiver, to memory allocated during the call or to a buffer taken from the pool during the call, that package-level variables (oneHalf, three, thresholds, tables) are never written, and that pool buffers are not used after putDec nor reachable from the result. Two operations sharing only operands then have disjoint write sets that are disjoint from each other's read sets, hence no data race and sequentially consistent results under the Go memory model.",
 		LevelNote:   "Level 'other': a reduction whose premises are model-checked symbolically. " + trusted,
-		Timeout:     map[string]time.Duration{"quick": 150 * time.Second, "thorough": 300 * time.Second},
+		Timeout:     map[string]time.Duration{"quick": 300 * time.Second, "thorough": 300 * time.Second},
 	})
 }
